@@ -323,7 +323,11 @@ static void parseQuery(void *inFrame, lltd_iface_state *st, void *iface_ctx) {
     }
 
     uint16_t num_descs = (st->see_list_count > max_descs) ? (uint16_t)max_descs : (uint16_t)st->see_list_count;
-    respH->numDescs = lltd_htons(num_descs);
+    uint16_t desc_field = num_descs;
+    if (st->see_list_count > num_descs) {
+        desc_field |= 0x8000; /* "more" flag: the remaining observations follow in later responses */
+    }
+    respH->numDescs = lltd_htons(desc_field);
     offset += sizeof(*respH);
 
     probe_t *node = st->see_list;
@@ -349,7 +353,20 @@ static void parseQuery(void *inFrame, lltd_iface_state *st, void *iface_ctx) {
     (void)lltd_port_send_frame(iface_ctx, buffer, offset);
     lltd_port_free(buffer);
 
-    lltd_state_clear_seen_probes(st);
+    /* Drop only the observations that were reported; the rest waits for the next Query. */
+    uint16_t reported = (uint16_t)(num_descs - remaining);
+    probe_t *cur = st->see_list;
+    while (cur != NULL && reported > 0) {
+        probe_t *next = (probe_t *)cur->nextProbe;
+        lltd_port_free(cur);
+        cur = next;
+        reported--;
+        st->see_list_count--;
+    }
+    st->see_list = cur;
+    if (cur == NULL) {
+        st->see_list_count = 0;
+    }
 }
 
 static void sendLargeTlvResponse(lltd_iface_state *st,
